@@ -95,6 +95,13 @@ def gen_doc(tape: Tape, marker: str, style: str = "canonical", size: int = 0) ->
         # a block the file-based TEST_HOLOGRAPHIC schema applies to, with values its lenient repair rewrites (enum casefold)
         lines += ["TEST_HOLOGRAPHIC:", "  NAME::thing_" + marker, "  STATUS::" + tape.pick(["active", "draft", "Deprecated"], "doc.hs"),
                   "  OPTIONAL_FIELD::x"]
+    if style == "sectioned":
+        # several NAMED and numbered section markers (a rewrite that drops them produces a 'sections removed' warning list)
+        named = tape.shuffle(["CONTEXT", "RULES", "GLOSSARY", "DEFINITIONS", "ALPHA", "ZETA", "NOTES", "LIMITS"], "doc.sec")[: 3 + tape.choose(5, "doc.nsec")]
+        for i, nm in enumerate(named):
+            lines += [f"§{nm}::S{i}", f"  V{i}::{i}"]
+        for n in ("1", "2", "10"):
+            lines += [f"§{n}::N{n}", f"  W{n}::{n}"]
     if style == "unicode":
         lines.append('Ключ::"значение ☃ é 𝔘"')
         lines.append("ÅB::naïve")
